@@ -90,6 +90,14 @@ def _load_inventory():
     return {l.rstrip('\n') for l in open(p) if l.strip() and not l.startswith('#')}
 
 
+def _load_type_inventory():
+    import os
+    p = os.path.join(os.path.dirname(os.path.abspath(__file__)), 'types_inventory.txt')
+    if not os.path.exists(p):
+        return None
+    return {l.rstrip('\n') for l in open(p) if l.strip() and not l.startswith('#')}
+
+
 def _rename_place(pl, lm):
     return {'local': lm(pl['local']), 'proj': [dict(p, local=lm(p['local'])) if p['k'] == 'index' else p for p in pl['proj']]}
 
@@ -731,6 +739,8 @@ class Facts:
         self.inlined = apply_inlining(doc, _load_inventory())
         self.helper_paths = {h for _, h in self.inlined} | {c for _, c in self.desugared}
         self.adts = {a['path']: a for a in doc['adts']}
+        tinv = _load_type_inventory()
+        self.transparent_adts = set() if tinv is None else {strip_generics(a['path']) for a in doc['adts'] if a['kind'] == 'Struct' and a['path'] not in tinv}
         self.all_bodies = [Body(self, b) for b in doc['bodies']]
         self.by_path = {b.path: b for b in self.all_bodies}
         # units of analysis: helpers grafted into their callers and closures rewritten into loops are not analysed a second time on their own
@@ -1507,6 +1517,8 @@ class Resolver:
             if k == 'field':
                 name = p['name']
                 owner = p.get('owner')
+                if isinstance(owner, dict) and owner.get('adt') and strip_generics(owner['adt']) in self.body.facts.transparent_adts and p.get('i') is not None:
+                    name = str(p['i'])   # positional, like a tuple component
                 if isinstance(owner, dict) and 'closure' in owner and e[0] == 'closure' and p.get('i') is not None and p['i'] < len(e[2]):
                     # the environment of a closure that was grafted into this body: a captured variable is the captured operand
                     e = e[2][p['i']]
@@ -1554,6 +1566,19 @@ class Resolver:
             return self._payload(e[2][0], 'Ok')
         if e[0] == 'agg' and isinstance(e[1], tuple) and e[1][0] == 'adt' and e[1][2] == variant and len(e[2]) == 1:
             return e[2][0]
+        if e[0] == 'phi' and len(e) > 2:
+            # `(x as V).0` is evaluated only where x is a V: alternatives built as another variant cannot be the value here
+            def other_variant(a):
+                return a[0] == 'agg' and isinstance(a[1], tuple) and a[1][0] == 'adt' and a[1][2] != variant and \
+                    ((a[1][2] in ('Some', 'None') and variant in ('Some', 'None')) or (a[1][2] in ('Ok', 'Err') and variant in ('Ok', 'Err')))
+            keep = [a for a in e[2] if not other_variant(a)]
+            if keep and len(keep) < len(e[2]) or (keep and all(a[0] == 'agg' for a in keep)):
+                pl = []
+                for a in keep:
+                    x = self._payload(a, variant)
+                    if x not in pl:
+                        pl.append(x)
+                return pl[0] if len(pl) == 1 else ('phi', e[1], tuple(pl))
         return e if self.level >= 1 else ('payload', e, variant)
 
     def local(self, l, bb, idx):
@@ -1655,6 +1680,9 @@ class Resolver:
             a = rv['agg']
             ops = tuple(self.operand(o, bb, idx) for o in rv['ops'])
             if a['k'] == 'adt':
+                if strip_generics(a['path']) in self.body.facts.transparent_adts:
+                    # a struct introduced after the type inventory was taken (a named work item / record): a plain product
+                    return ('agg', 'tuple', ops)
                 kind = ('adt', strip_generics(a['path']).split('::')[-1], a['variant'], tuple(a.get('fields', [])))
                 return ('agg', kind, ops)
             if a['k'] == 'closure':
@@ -1729,6 +1757,34 @@ def literals(body, R, bb):
                         hits.append(dbb)
                 if len(hits) == 1:
                     work.append(hits[0])
+            # `let c = a && b;` lowers to c = phi(false | b) with `b` assigned under the guard `a`: c being true means b was true where it was
+            # assigned (dually for `||` and a false test)
+            elif lit[0] in ('true', 'false') and e[0] == 'phi' and len(e) > 2:
+                want = (lit[0] == 'true')
+                defs_ = [(dbb, didx, R.def_expr(dbb, didx)) for (dbb, didx) in body.defs().get(e[1], []) if didx != 'term']
+                if len(defs_) == len(body.defs().get(e[1], [])) and defs_:
+                    others = [d for d in defs_ if d[2] != ('const', not want)]
+                    if len(others) == 1 and len(others) < len(defs_):
+                        dbb, didx, ex = others[0]
+                        if ex != ('const', want):
+                            nl = norm_bool(ex, want) + (dbb,)
+                            if nl not in out:
+                                out.append(nl)
+                        work.append(dbb)
+            # a variant test of a value that was built as one of several aggregates (an inlined helper returning Some(..) / None in
+            # different arms): the tested variant implies the guards of the unique arm that built it
+            if lit[0] == 'is' and e[0] == 'phi' and len(e) > 2 and all(a[0] == 'agg' and isinstance(a[1], tuple) for a in e[2]):
+                wanted = [a for a in e[2] if a[1][2] in lit[2]]
+                if wanted and len(wanted) < len(e[2]):
+                    hits = []
+                    for (dbb, didx) in body.defs().get(e[1], []):
+                        if didx == 'term':
+                            continue
+                        d = R.def_expr(dbb, didx)
+                        if any(x == w for x in walk(d) for w in wanted):
+                            hits.append(dbb)
+                    if len(hits) == 1:
+                        work.append(hits[0])
     return out
 
 
